@@ -4,8 +4,9 @@
    lg (core tree, development flag, panic and fatal hooks) in world w (AtomicLevel values): the list
    of core events (Write / Sync / hook) and the terminal action that ends it, if any. *)
 From Coq Require Import List Bool ZArith.
+From Coq.Strings Require Import Byte.
 Import ListNotations.
-From Zap Require Import Base.Wire C05.Cores C05.CoreProofs C05.Model C06.Model C06.Proofs.
+From Zap Require Import Base.Wire C05.Cores C05.CoreProofs C05.Sampling C05.Model C06.Model C06.Proofs.
 Open Scope Z_scope.
 
 (* every front-end method that can log at a terminal level (Panic, Fatal, and DPanic in development)
@@ -111,6 +112,55 @@ Theorem C06_committed_before_control_is_lost : forall w lg m l lens st,
 Proof. exact committed_first_thm. Qed.
 Print Assumptions C06_committed_before_control_is_lost.
 
+(* ---- "even when the entry is sampled out": samplers that really drop (C05/Sampling.v) ----
+   [log_call_s dec w lg io (fam_of m) l] is the same call on a tree whose samplers drop: the samplers are numbered
+   in pre-order and [dec k] says whether sampler k's counter answers "drop" for this entry - ARBITRARY in every
+   theorem below (which entries a sampler drops is C11's).  A sampler that drops returns the CheckedEntry it was
+   handed, with every core an earlier branch of a tee registered on it.
+   Whatever the samplers decide, every front-end method terminates after writing what Core.Check registered *)
+Theorem C06_terminates_sampled : forall dec w lg io m l,
+  In m methods -> can_log m l = true -> terminal lg l ->
+  log_call_s dec w lg io (fam_of m) l =
+  (write_events io l (cores_of (check_s dec w (lcore lg) 0 l None)), Some (expected_action lg l)).
+Proof. exact terminates_s_thm. Qed.
+Print Assumptions C06_terminates_sampled.
+(* samplers that never drop: the call of the theorems above *)
+Theorem C06_no_drop_is_plain : forall w lg io f l, log_call_s no_drop w lg io f l = log_call w lg io f l.
+Proof. exact no_drop_plain_thm. Qed.
+Print Assumptions C06_no_drop_is_plain.
+(* before control is lost the entry has been handed, in order, to exactly the leaves all of whose level filters
+   enable the level and none of whose samplers dropped it ([delivered_s]: a specification over root-to-leaf paths
+   that never runs Check), the hooks due have run, every Write is followed by the Sync of its sink, and an
+   (abstract) buffered sink holds every line *)
+Theorem C06_written_first_sampled : forall dec w lg m l,
+  In m methods -> can_log m l = true -> terminal lg l ->
+  let evs := fst (log_call_s dec w lg all_io (fam_of m) l) in
+  writes_of evs = delivered_s dec w (lcore lg) 0 l /\
+  ev_hooks_of evs = hooks_due_s dec w (lcore lg) 0 l /\
+  sync_ok true evs = true /\
+  (forall id, flushed_lines id evs 0 0 = count_writes id (delivered_s dec w (lcore lg) 0 l)).
+Proof. exact written_first_s_thm. Qed.
+Print Assumptions C06_written_first_sampled.
+(* a drop takes the entry from the sampler's own subtree and from nothing else: for ANY root-to-leaf path of the
+   tree ([ens] = the level enablers on it, [ss] = the samplers on it), if every enabler on the path enables the
+   level and no sampler on the path drops, the leaf is written before control is lost - whatever the samplers, the
+   disabled filters and the declining wrappers before, between or after it in a tee (at any depth) do *)
+Theorem C06_drop_spares_every_other_core : forall dec w lg m l ens ss id,
+  In m methods -> can_log m l = true -> terminal lg l ->
+  In (ens, ss, id) (paths_s (lcore lg) 0) ->
+  forallb (fun en => on w en l) ens = true -> (forall s, In s ss -> dec s = false) ->
+  In id (writes_of (fst (log_call_s dec w lg all_io (fam_of m) l))).
+Proof. exact drop_spares_others_thm. Qed.
+Print Assumptions C06_drop_spares_every_other_core.
+(* ... and every sink below every such leaf, whatever the sink stack, has committed everything ever written to it *)
+Theorem C06_committed_before_control_is_lost_sampled : forall dec w lg m l lens st,
+  In m methods -> can_log m l = true -> terminal lg l ->
+  let st' := run_evs lens st (fst (log_call_s dec w lg all_io (fam_of m) l)) in
+  forall id, In id (delivered_s dec w (lcore lg) 0 l) ->
+    Forall (eq 0) (sk_pending 0 (st' id)) /\ map (Z.add 0) (sk_committed (st' id)) = sk_held 0 (st' id).
+Proof. exact committed_first_s_thm. Qed.
+Print Assumptions C06_committed_before_control_is_lost_sampled.
+
 (* zapio.Writer (not among the front ends the property enumerates) returns early from Write when its
    level is disabled, also at Panic/Fatal: the statement holds for it only when the level is enabled
    (known finding zapio-terminal-disabled) *)
@@ -154,7 +204,7 @@ Example C06_example_blank_stdlog :
   front_call (fun _ => InvalidL) {| lcore := Nop; dev := false; on_panic := HNil; on_fatal := HNil |} all_io
              {| m_recv := RStdLog; m_kind := KLog; m_suffix := SNone |} PanicL [] = ([], Some APanic, Some []) /\
   model (SL [SL [SZ 1]; SL []; SZ 0; SL [SZ 0]; SL [SZ 0]; SZ 0; SL [SL [SZ 4; SZ 0; SZ 0; SZ 4; SB []]]]) =
-  SL [SL [SL [SL []; SL [SZ 0; SB []]; SL []]]; SL []].
+  SL [SL [SL [SL []; SL [SZ 0; SB []]; SL []; SL []]]; SL []].
 Proof. vm_compute. split; reflexivity. Qed.
 (* a 300-byte Fatal entry after a 20-byte Info entry, through BufferedWriteSyncer{Size: 128} around a stopped
    BufferedWriteSyncer around Lock around a multi-WriteSyncer of a sink and a BufferedWriteSyncer{Size: 64}
@@ -167,4 +217,19 @@ Example C06_example_stack :
   sk_pending 0 (sk_write 300 (sk_write 20 ex_stack)) = [320; 320] /\
   sk_pending 0 (sk_sync (sk_write 300 (sk_write 20 ex_stack))) = [0; 0] /\
   sk_committed (sk_sync (sk_write 300 (sk_write 20 ex_stack))) = [320; 320].
+Proof. vm_compute. repeat split; reflexivity. Qed.
+(* tee[audit core, sampler(first 1, thereafter 0)(console core)], the same Panic message four times on one logger:
+   the sampler drops the console core's copy from the second time on; the audit core is written and synced every
+   time, and the panic follows.  (wire: tree, no cells, development off, nil hooks, in-process, four calls) *)
+Definition ex_audit_tee : sx :=
+  SL [SZ 2; SL [SZ 0; SZ 0; SL [SZ 0; SZ (-1)]]; SL [SZ 8; SL [SZ 0; SZ 1; SL [SZ 0; SZ (-1)]]; SZ 1; SZ 0]].
+Definition ex_panic_call : sx := SL [SZ 0; SZ 6; SZ 0; SZ 4; SB [x68; x69]; SL []; SL []; SZ 1690].
+Example C06_example_sampled_out_sibling :
+  model (SL [ex_audit_tee; SL []; SZ 0; SL [SZ 0]; SL [SZ 0]; SZ 0; SL [ex_panic_call; ex_panic_call; ex_panic_call]]) =
+  SL [SL [SL [SL [SL [SZ 0; SZ 0]; SL [SZ 1; SZ 0]; SL [SZ 0; SZ 1]; SL [SZ 1; SZ 1]]; SL [SZ 0; SB [x68; x69]]; SL []; SL [SL [SZ 0; SZ 0]]];
+              SL [SL [SL [SZ 0; SZ 0]; SL [SZ 1; SZ 0]]; SL [SZ 0; SB [x68; x69]]; SL []; SL [SL [SZ 0; SZ 1]]];
+              SL [SL [SL [SZ 0; SZ 0]; SL [SZ 1; SZ 0]]; SL [SZ 0; SB [x68; x69]]; SL []; SL [SL [SZ 0; SZ 1]]]]; SL []] /\
+  (* the oracle rejects an observation in which the dropped repeat did not reach the audit core *)
+  spec (SL [ex_audit_tee; SL []; SZ 0; SL [SZ 0]; SL [SZ 0]; SZ 0; SL [ex_panic_call]])
+       (SL [SL [SL [SL []; SL [SZ 0; SB [x68; x69]]; SL []; SL [SL [SZ 0; SZ 1]]]]; SL []]) = false.
 Proof. vm_compute. repeat split; reflexivity. Qed.
